@@ -42,7 +42,7 @@ var externals = map[string]extModel{}
 // externalWrites: write-set patterns of modelled externals (for frame inference of their callers).
 var externalWrites = map[string][]string{}
 
-var trustedList = map[string]string{}
+var trustedList = map[string]string{"math.Ceil(math.Log2(float64(u)))": "converted to int lies in 0..64, or is the minimum int64 when u == 0 (floating point is otherwise uninterpreted)"}
 
 func regExt(name, doc string, writes []string, m extModel) {
 	externals[name] = m
